@@ -10,7 +10,7 @@ import Mathlib.Tactic.Ring
 import Mathlib.Tactic.LinearCombination
 import GT.Lemmas.RepDerived
 
-namespace GT
+namespace GT.RepW
 open Matrix
 
 namespace Rep
@@ -298,4 +298,4 @@ theorem symH_mul [Inhabited R] {half : R} (hh : 2 * half = 1) (X Y : Matrix (Fin
         simp only [Matrix.mul_assoc]
 
 end Rep
-end GT
+end GT.RepW
